@@ -3978,10 +3978,17 @@ class SFTPClient:
                     sparse: bool, block_size: int, max_requests: int,
                     progress_handler: SFTPProgressHandler,
                     error_handler: SFTPErrorHandler,
-                    remote_only: bool) -> None:
+                    remote_only: bool, dstlinks: Set[bytes]) -> None:
         """Copy a file, directory, or symbolic link"""
 
         try:
+            # Sources which are copied into the same directory can bring
+            # the same name again. Don't write it through, or into, a
+            # symbolic link this copy created for an earlier source.
+            if posixpath.normpath(dstpath) in dstlinks:
+                raise SFTPFailure(dstpath.decode('utf-8', 'backslashreplace') +
+                                  ' is a symbolic link created by this copy')
+
             filetype = srcattrs.type
 
             if follow_symlinks and filetype == FILEXFER_TYPE_SYMLINK:
@@ -4033,7 +4040,7 @@ class SFTPClient:
                                      srcname.attrs, preserve, recurse,
                                      follow_symlinks, sparse, block_size,
                                      max_requests, progress_handler,
-                                     error_handler, remote_only)
+                                     error_handler, remote_only, dstlinks)
 
                 self.logger.info('  Finished copy of directory %s to %s',
                                  srcpath, dstpath)
@@ -4045,6 +4052,7 @@ class SFTPClient:
                 self.logger.info('    Target path: %s', targetpath)
 
                 await dstfs.symlink(targetpath, dstpath)
+                dstlinks.add(posixpath.normpath(dstpath))
             else:
                 self.logger.info('  Copying file %s to %s', srcpath, dstpath)
 
@@ -4149,6 +4157,7 @@ class SFTPClient:
                       ' must be a directory')
 
         dstfiles: Set[bytes] = set()
+        dstlinks: Set[bytes] = set()
 
         for srcname in srcnames:
             srcfile = cast(bytes, srcname.filename)
@@ -4182,7 +4191,7 @@ class SFTPClient:
             await self._copy(srcfs, dstfs, srcfile, dstfile, srcname.attrs,
                              preserve, recurse, follow_symlinks, sparse,
                              block_size, max_requests, progress_handler,
-                             error_handler, remote_only)
+                             error_handler, remote_only, dstlinks)
 
     async def get(self, remotepaths: _SFTPPaths,
                   localpath: Optional[_SFTPPath] = None, *,
